@@ -133,10 +133,71 @@ GUARDED = {
 }
 
 
-def run_clang(repo, tmp):
+# ---- owner discipline of the lock-free classes: plain (non-atomic) member fields that belong to whoever currently
+# owns the object in the sense of the release/acquire protocols of RADefs.v.  Per class:
+#   fields     owner-private plain fields
+#   entry      methods that are entered in owner context (role in the protocol given as comment); every other method is
+#              entered in NON-owner context
+#   post_held  methods that return in owner context (their callers continue as owner)
+#   atomic     effect of an atomic operation on the context: gain | drop | drop_on_true | gain_on_false | gain_on_true | none
+#              (conditional effects apply on the branch of the enclosing if / loop condition; outside a condition a conditional
+#              drop is taken unconditionally and a conditional gain is ignored: both err towards "not owner")
+#   base_calls qualified calls of base-class methods that access the fields
+#   cond_gain  local variables whose truth means "this caller owns the shared object"
+#   drop_calls calls (on other objects) that hand the object over
+OWNER_POLICY = {
+    "mutex": {
+        "fields": ["_queue"],
+        "entry": {"unlock": "owner releases"},
+        "post_held": ["build_queue"],
+        "atomic": {("unlock", "_requests", "compare_exchange_strong"): "drop_on_true",   # after a successful unlock CAS the caller owns nothing
+                   ("build_queue", "_requests", "exchange"): "gain"},                     # after-acquire: P3 pc TB -> TC
+    },
+    "awaiter": {
+        "fields": ["_next", "_handle_addr", "_resume_fn"],
+        "entry": {"subscribe": "before-publish", "subscribe_check_ready": "before-publish", "resume": "after-acquire (chain walk)",
+                  "set_handle": "before-publish", "set_resume_fn": "before-publish"},
+        "atomic": {("subscribe", "chain", "compare_exchange_weak"): "drop_on_true",       # P2: S1 -> S2, never touched again
+                   ("subscribe_check_ready", "chain", "compare_exchange_weak"): "drop_on_true"},
+    },
+    "future_common": {"fields": ["_state"], "entry": {}, "atomic": {}},
+    "future": {
+        "fields": ["_state", "_value", "_ptr_value", "_exception"],
+        "entry": {"set": "before-publish (winner of promise::claim)", "set_ref": "before-publish", "set_ptr": "before-publish",
+                  "value": "after-acquire (caller learnt ready)", "result_of": "constructing thread", "operator<<": "constructing thread"},
+        "atomic": {},
+    },
+    "reusable_storage_mtsafe": {
+        "fields": ["_ptr", "_capacity"],
+        "entry": {},
+        "atomic": {("alloc", "_busy", "exchange"): "gain_on_false",                        # P4: T0 -> T1
+                   ("dealloc", "_busy", "store"): "drop"},                                 # P4: T2 -> T0
+        "base_calls": {"alloc": "_ptr", "dealloc": "_ptr"},
+        "cond_gain": {"dealloc": ["me"]},          # the trailer holds the owner pointer only for the holder of the shared block
+    },
+    "generator::promise_type": {
+        # the generator object is used by one party at a time (the caller while it is idle, the generator body while it runs);
+        # what the discipline checks is the hand-over inside next_sync / unblock_sync
+        "default_entry": True,
+        "fields": ["_ret", "_exp", "_done", "_caller"],
+        "entry": {"next_sync": "caller while the generator is idle", "next_async": "caller while idle", "next_future": "caller while idle",
+                  "unblock_sync": "generator side, before set", "unblock_future": "generator side",
+                  "yield_value": "generator side", "return_void": "generator side", "unhandled_exception": "generator side",
+                  "done": "whoever holds the generator", "value": "caller after wait", "set_arg": "caller while idle",
+                  "final_suspend": "generator side", "get_return_object": "constructing thread", "resume_caller": "generator side",
+                  "get_exception": "caller after wait", "get": "caller after wait", "can_continue": "whoever holds the generator",
+                  "rethrow_if_exception": "caller after wait"},
+        "atomic": {("unblock_sync", "_block", "store"): "drop",                            # P5: G2 -> G0
+                   ("next_sync", "_block", "wait"): "gain"},                               # P5: C2 -> C3
+        "drop_calls": {"next_sync": ["resume"]},                                           # h.resume(): the generator runs (maybe elsewhere)
+    },
+}
+
+
+def run_clang(repo, tmp, ndebug=True):
     tu = os.path.join(tmp, "sync_tu.cpp")
     open(tu, "w").write(TU)
-    cmd = ["clang++", "-std=c++20", "-fsyntax-only", "-DNDEBUG", "-w", "-I", os.path.join(repo, "src"),
+    cmd = ["clang++", "-std=c++20", "-fsyntax-only"] + (["-DNDEBUG"] if ndebug else []) + ["-w", "-I", os.path.join(repo, "src"),
            "-Xclang", "-ast-dump=json", "-Xclang", "-ast-dump-filter=cocls::", tu]
     p = subprocess.run(cmd, stdout=subprocess.PIPE, stderr=subprocess.PIPE, timeout=300)
     if p.returncode != 0:
@@ -236,7 +297,7 @@ class Walker:
             c = cls
             if "parentDeclContextId" in n and n["parentDeclContextId"] in self.ctxname:
                 c = self.ctxname[n["parentDeclContextId"]]
-            body = [x for x in n.get("inner", []) if x.get("kind") in ("CompoundStmt", "CXXTryStmt")]
+            body = [x for x in n.get("inner", []) if x.get("kind") in ("CompoundStmt", "CXXTryStmt", "CoroutineBodyStmt")]
             if body and n["id"] not in self.seen_fn and c is not None:
                 self.seen_fn.add(n["id"])
                 fn = strip_tpl(n.get("name", ""))
@@ -344,6 +405,9 @@ class MethodBuilder:
         self.loops = []           # stack of (break_targets list, continue node, guard depth)
         self.problems = []
         self.lambda_base = []     # guard-scope depth at the entry of each enclosing lambda body
+        self.policy = None        # owner-discipline mode (lock-free classes): OWNER_POLICY entry
+        self.fn = None
+        self.cond_eff = None      # while evaluating a branch condition: conditional effects found in it
 
     def emit(self, ev):
         n = self.g.new(ev)
@@ -369,6 +433,9 @@ class MethodBuilder:
             return
         k = n.get("kind")
         inner = [c for c in n.get("inner", []) if isinstance(c, dict)]
+        if k in ("CompoundStmt", "IfStmt", "WhileStmt", "ForStmt", "DoStmt", "CXXForRangeStmt", "ReturnStmt", "BreakStmt",
+                 "ContinueStmt", "SwitchStmt", "DeclStmt", "AttributedStmt", "CXXTryStmt", "CoreturnStmt"):
+            return self.stmt(n)      # statement reached through an expression walk (statement expression, attribute ...)
         if k == "LambdaExpr":
             # a lambda body runs where it is called; the only lambdas that matter here are condition-variable
             # predicates (run under the lock by wait) and callbacks run inline: walk the body in place
@@ -387,11 +454,31 @@ class MethodBuilder:
             callee = unwrap(inner[0])
             ck = callee.get("kind")
             args = inner[1:]
-            if ck in ("MemberExpr", "CXXDependentScopeMemberExpr"):
+            if ck in ("MemberExpr", "CXXDependentScopeMemberExpr", "UnresolvedMemberExpr"):
                 op = callee.get("name") or callee.get("member")
                 base = unwrap((callee.get("inner") or [{}])[0]) if callee.get("inner") else {}
                 bname = obj_name(base) if base else None
                 bty = base.get("type", {}).get("qualType", "") if base else ""
+                if self.policy is not None:
+                    raw = (callee.get("inner") or [{}])[0]
+                    if raw.get("kind") == "ImplicitCastExpr" and "DerivedToBase" in raw.get("castKind", "") and \
+                            base.get("kind") == "CXXThisExpr" and op in self.policy.get("base_calls", {}):
+                        for a in args: self.expr(a)
+                        self.emit(("Wr", self.policy["base_calls"][op]))
+                        return
+                    if ("atomic" in bty or "awaiter_collector" in bty) and (op in ATOMIC_OPS or op in ("notify_all", "notify_one")):
+                        for a in args: self.expr(a)
+                        eff = self.policy.get("atomic", {}).get((self.fn, bname, op), "none")
+                        if eff == "gain": self.emit(("Gain",))
+                        elif eff == "drop": self.emit(("Release",))
+                        elif eff != "none":
+                            if self.cond_eff is not None: self.cond_eff.append(eff)
+                            elif eff.startswith("drop"): self.emit(("Release",))
+                        return
+                    if op in self.policy.get("drop_calls", {}).get(self.fn, []) and base.get("kind") != "CXXThisExpr":
+                        for a in args: self.expr(a)
+                        self.emit(("Release",))
+                        return
                 # operations on a guard variable
                 if bname in self.guardvars and base.get("kind") == "DeclRefExpr":
                     if op == "unlock": self.emit(("Unlock",)); return
@@ -402,6 +489,11 @@ class MethodBuilder:
                     if op == "lock": self.emit(("Lock",)); return
                     if op == "unlock": self.emit(("Unlock",)); return
                 # condition variable wait: releases and re-acquires the lock
+                if "condition_variable" in bty and op is None:
+                    # UnresolvedMemberExpr (overloaded member called with dependent arguments, e.g. inside a generic lambda):
+                    # clang's JSON has no member name; a call that passes a guard variable is a wait
+                    if any(unwrap(a).get("kind") == "DeclRefExpr" and obj_name(a) in self.guardvars for a in args):
+                        op = "wait_until"
                 if "condition_variable" in bty and op in ("wait", "wait_for", "wait_until"):
                     self.emit(("Unlock",)); self.emit(("Lock",))
                     for a in args[1:]:
@@ -459,6 +551,30 @@ class MethodBuilder:
         for c in inner:
             self.expr(c, write)
 
+    def eval_cond(self, cond):
+        """walks a branch condition; returns (conditional effects, negated?)"""
+        if self.policy is None:
+            self.expr(cond)
+            return [], False
+        c = unwrap(cond)
+        neg = False
+        while c.get("kind") == "UnaryOperator" and c.get("opcode") == "!" and c.get("inner"):
+            neg = not neg
+            c = unwrap(c["inner"][0])
+        if c.get("kind") == "DeclRefExpr" and obj_name(c) in self.policy.get("cond_gain", {}).get(self.fn, []):
+            return ["gain_on_true"], neg
+        self.cond_eff = []
+        self.expr(cond)
+        effs, self.cond_eff = self.cond_eff, None
+        return effs, neg
+
+    def apply_eff(self, effs, neg, cond_true):
+        op_true = cond_true != neg
+        for e in effs:
+            if e == "drop_on_true" and op_true: self.emit(("Release",))
+            elif e == "gain_on_false" and not op_true: self.emit(("Gain",))
+            elif e == "gain_on_true" and op_true: self.emit(("Gain",))
+
     def is_this_field(self, n):
         nm = n.get("name") or n.get("member")
         if nm not in self.fields:
@@ -485,6 +601,11 @@ class MethodBuilder:
             return
         k = n.get("kind")
         inner = [c for c in n.get("inner", []) if isinstance(c, dict)]
+        if k == "AttributedStmt":          # [[likely]] / [[unlikely]] / [[fallthrough]]
+            for c in inner:
+                if c.get("kind", "").endswith("Stmt") or c.get("kind", "").endswith("Expr") or c.get("kind", "").endswith("Operator"):
+                    self.stmt(c)
+            return
         if k == "CompoundStmt":
             self.guards.append([])
             for c in inner:
@@ -529,27 +650,56 @@ class MethodBuilder:
                 cond, th, el = cs[-2], cs[-1], None
                 pre = cs[:-2]
             for p in pre: self.stmt(p)
-            self.expr(cond)
+            effs, neg = self.eval_cond(cond)
             f0 = list(self.front)
+            self.apply_eff(effs, neg, True)
             self.stmt_scoped(th)
             f1 = self.front
             self.front = f0
+            self.apply_eff(effs, neg, False)
             if el is not None:
                 self.stmt_scoped(el)
             self.front = self.front + [x for x in f1 if x not in self.front]
+            return
+        if k == "SwitchStmt":
+            body = inner[-1]
+            for c in inner[:-1]: self.expr(c)
+            f0 = list(self.front)
+            brk = []
+            self.loops.append((brk, None, len(self.guards)))
+            has_default = False
+            self.front = []
+            def walk_case(c):
+                nonlocal has_default
+                while c.get("kind") in ("CaseStmt", "DefaultStmt"):
+                    if c.get("kind") == "DefaultStmt": has_default = True
+                    self.front = self.front + [x for x in f0 if x not in self.front]
+                    subs = [x for x in c.get("inner", []) if isinstance(x, dict)]
+                    c = subs[-1] if subs else {}
+                self.stmt(c)
+            for c in ([x for x in body.get("inner", []) if isinstance(x, dict)] if body.get("kind") == "CompoundStmt" else [body]):
+                walk_case(c)
+            self.loops.pop()
+            self.front = self.front + brk + ([] if has_default else [x for x in f0 if x not in self.front])
             return
         if k in ("WhileStmt", "ForStmt", "DoStmt", "CXXForRangeStmt"):
             head = self.emit(("Skip",))
             brk = []
             self.loops.append((brk, head, len(self.guards)))
             if k == "WhileStmt":
-                self.expr(inner[-2]); exitf = list(self.front)
+                effs, neg = self.eval_cond(inner[-2]); condf = list(self.front)
+                self.apply_eff(effs, neg, True)
                 self.stmt_scoped(inner[-1])
                 for f in self.front: self.g.edge(f, head)
-                self.front = exitf
+                self.front = condf
+                self.apply_eff(effs, neg, False)
             elif k == "DoStmt":
-                self.stmt_scoped(inner[0]); self.expr(inner[1])
+                self.stmt_scoped(inner[0]); effs, neg = self.eval_cond(inner[1])
+                condf = list(self.front)
+                self.apply_eff(effs, neg, True)
                 for f in self.front: self.g.edge(f, head)
+                self.front = condf
+                self.apply_eff(effs, neg, False)
             else:
                 for c in inner[:-1]:
                     if c.get("kind") == "DeclStmt": self.stmt(c)
@@ -582,8 +732,9 @@ class MethodBuilder:
             self.front = []
             return
         if k == "ContinueStmt":
-            if self.loops:
-                brk, head, depth = self.loops[-1]
+            real = [l for l in self.loops if l[1] is not None]
+            if real:
+                brk, head, depth = real[-1]
                 self.leave_scopes(depth)
                 for f in self.front: self.g.edge(f, head)
             self.front = []
@@ -631,6 +782,8 @@ def annotate(g, entry, pre, posts=None):
             h2 = "Free"
         elif ev[0] == "Release":
             h2 = "Free"
+        elif ev[0] == "Gain":
+            h2 = "Held"
         elif ev[0] in ("Rd", "Wr"):
             if h != "Held" and not prob: prob = "%s %s while the mutex is possibly not held (node %d)" % (ev[0], ev[1], n)
             h2 = h
@@ -702,19 +855,30 @@ def extract_classes(w):
                 for x in fnode.get("inner", []):
                     if x.get("kind") == "CompoundStmt":
                         mb.stmt(x)
+                    elif x.get("kind") == "CoroutineBodyStmt":     # coroutine: the user-written body is the first child
+                        cb = [c for c in x.get("inner", []) if isinstance(c, dict) and c.get("kind") == "CompoundStmt"]
+                        if cb: mb.stmt(cb[0])
                 mb.finish()
                 evs = [nd[0][0] for nd in mb.g.nodes]
                 nonpublic = access.get(fn, "public") != "public"
                 # helper convention: a non-public method that never locks but touches fields / calls helpers runs under
                 # the caller's lock (the Coq check verifies every call site provides it)
                 pre = bool(lockparams) or fn.endswith("_lk") or (
-                    nonpublic and "Lock" not in evs and any(e in ("Rd", "Wr", "Call") for e in evs))
+                    nonpublic and "Lock" not in evs and any(e in ("Rd", "Wr") for e in evs))
+                mb.maybe_helper = nonpublic and "Lock" not in evs
                 ann, prob = annotate(mb.g, mb.entry, pre)
                 variants.append((mb, pre, ann, prob))
             # choose the variant with most nodes (the instantiated one resolves more member expressions)
             mb, pre, ann, prob = max(variants, key=lambda v: len(v[0].g.nodes))
             methods[fn] = {"nodes": mb.g.nodes, "annot": ann, "pre": pre, "post": ann[mb.end] == "Held", "entry": mb.entry,
-                           "end": mb.end, "g": mb.g, "public": access.get(fn, "public") == "public" and not pre}
+                           "end": mb.end, "g": mb.g, "helper": mb.maybe_helper, "public": access.get(fn, "public") == "public" and not pre}
+        # a non-public method that neither locks nor touches fields but calls a helper that needs the lock is a helper too
+        for _ in range(6):
+            ch = False
+            for m, x in methods.items():
+                if not x["pre"] and x["helper"] and any(nd[0][0] == "Call" and methods.get(nd[0][1], {}).get("pre") for nd in x["nodes"]):
+                    x["pre"] = True; x["public"] = False; ch = True
+            if not ch: break
         # callee contracts: iterate the annotation until the post states are stable
         for _ in range(6):
             posts = {m: x["post"] for m, x in methods.items()}
@@ -731,6 +895,79 @@ def extract_classes(w):
                 guard_problems.append("class %s method %s: returns with the mutex both held and not held" % (cls, m))
         out[cls] = {"fields": sorted(data), "fieldtypes": fields, "methods": methods, "mutex": mutex}
     return out, problems, guard_problems
+
+
+def extract_owner_classes(w):
+    """owner-discipline skeletons of the lock-free classes (OWNER_POLICY); same CFG + certificate format as the lock
+    skeletons, "Held" = owner context"""
+    out, problems, viol = {}, [], []
+    for cls, pol in OWNER_POLICY.items():
+        names = sorted(set(fn for (c, fn) in w.funcs if c == cls))
+        short = cls.split("::")[-1]
+        names = [fn for fn in names if fn != short and not fn.startswith("~") and fn not in ("operator=",)]
+        if not names:
+            problems.append("owner discipline: class %s not found" % cls); continue
+        methods = {}
+        for fn in names:
+            variants = []
+            for fnode in w.funcs[(cls, fn)]:
+                mb = MethodBuilder(cls, None, set(pol["fields"]), set(names), [])
+                mb.policy, mb.fn = pol, fn
+                for x in fnode.get("inner", []):
+                    if x.get("kind") == "CompoundStmt":
+                        mb.stmt(x)
+                    elif x.get("kind") == "CoroutineBodyStmt":
+                        cb = [c for c in x.get("inner", []) if isinstance(c, dict) and c.get("kind") == "CompoundStmt"]
+                        if cb: mb.stmt(cb[0])
+                mb.finish()
+                variants.append(mb)
+            mb = max(variants, key=lambda v: (sum(1 for nd in v.g.nodes if nd[0][0] in ("Rd", "Wr")), len(v.g.nodes)))
+            methods[fn] = {"g": mb.g, "nodes": mb.g.nodes, "entry": mb.entry, "end": mb.end, "pre": fn in pol["entry"] or pol.get("default_entry", False),
+                           "public": False, "role": pol["entry"].get(fn, "owner (default of the class)" if pol.get("default_entry") else "non-owner")}
+        # calls: a callee without any effect or access is neutral (Skip); a callee entered in non-owner context is
+        # preceded by a Release (losing the context is always the conservative direction)
+        def neutral(m, seen=()):
+            x = methods.get(m)
+            if x is None or m in seen: return True
+            return all(nd[0][0] in ("Skip", "End", "Release") or (nd[0][0] == "Call" and neutral(nd[0][1], seen + (m,)))
+                       for nd in x["nodes"]) and not x["pre"]
+        neut = {m: neutral(m) for m in methods}
+        for m, x in methods.items():
+            g = x["g"]
+            for i in range(len(g.nodes)):
+                ev = g.nodes[i][0]
+                if ev[0] == "Call":
+                    if neut.get(ev[1], True):
+                        g.nodes[i][0] = ("Skip",)
+                    elif not methods[ev[1]]["pre"]:
+                        j = g.new(ev); g.nodes[j][1] = g.nodes[i][1]
+                        g.nodes[i][0] = ("Release",); g.nodes[i][1] = [j]
+        def fix():
+            for _ in range(6):
+                posts = {m: x.get("post", x["pre"]) for m, x in methods.items()}
+                for m, x in methods.items():
+                    x["annot"], x["prob"] = annotate(x["g"], x["entry"], x["pre"], posts)
+                    x["post"] = x["annot"][x["end"]] == "Held"
+                if posts == {m: x["post"] for m, x in methods.items()}:
+                    break
+        fix()
+        # a method whose outcome depends on a value (refused / accepted subscription, busy / free block ...) returns in
+        # non-owner context on every path: conservative
+        changed = False
+        for m, x in methods.items():
+            if x["annot"][x["end"]] == "Any" and m not in pol.get("post_held", []):
+                g = x["g"]; r = g.new(("Release",))
+                for nd in g.nodes[:-1]:
+                    nd[1][:] = [r if t == x["end"] else t for t in nd[1]]
+                g.nodes[r][1] = [x["end"]]; changed = True
+        if changed: fix()
+        for m, x in methods.items():
+            if x["prob"]:
+                viol.append("class %s method %s (%s): %s" % (cls, m, x["role"], x["prob"].replace("mutex is possibly not held", "caller is possibly not the owner")))
+            elif x["annot"][x["end"]] == "Any":
+                viol.append("class %s method %s: returns both as owner and as non-owner" % (cls, m))
+        out[cls] = {"fields": list(pol["fields"]), "fieldtypes": {}, "methods": methods, "mutex": "(owner context)"}
+    return out, problems, viol
 
 
 # ------------------------------------------------------------------------------------------------ output
@@ -798,12 +1035,32 @@ def generate(repo, out_path, json_path=None):
             touch[nm] = any(rs)
     classes, p2, guard_problems = extract_classes(w)
     problems += p2
+    oclasses, p3, owner_problems = extract_owner_classes(w)
+    problems += p3
+    # advisory second pass over the debug configuration (asserts compiled in): accesses that exist only inside assert()
+    debug_only = []
+    if os.environ.get("COCLS_SYNC_DEBUG_PASS", "1") == "1" and objs:
+        try:
+            with tempfile.TemporaryDirectory(dir="/var/tmp") as tmp2:
+                wd = Walker(run_clang(repo, tmp2, ndebug=False))
+            _, _, dv = extract_owner_classes(wd)
+            debug_only = [v for v in dv if v not in owner_problems]
+            for key, nm in PUBLISHERS.items():
+                rs = [r for r in (touches_after_publish(f) for f in wd.funcs.get(key, [])) if r is not None]
+                if rs and any(rs) and touch.get(nm) is False:
+                    debug_only.append("%s::%s touches the published node after the CAS (inside assert)" % key)
+        except Exception as e:
+            debug_only = ["debug pass failed: %r" % (e,)]
     complete = not problems
-    text = emit_coq(values, touch, classes, complete, problems)
+    text = emit_coq(values, touch, classes, complete, problems, oclasses)
     os.makedirs(os.path.dirname(out_path), exist_ok=True)
     if not (os.path.exists(out_path) and open(out_path).read() == text):
         open(out_path, "w").write(text)
-    info = {"complete": complete, "problems": problems, "guard_problems": guard_problems, "orders": values, "sites": sites_found, "ignored_sites": ignored,
+    info = {"complete": complete, "problems": problems, "guard_problems": guard_problems, "owner_problems": owner_problems, "debug_build_only": debug_only,
+            "owner_classes": {c: {"fields": d["fields"], "methods": {m: {"role": x["role"], "post_owner": x["post"],
+                                                                        "events": [" ".join(str(e) for e in nd[0]) for nd in x["nodes"]]}
+                                                                    for m, x in d["methods"].items()}}
+                              for c, d in oclasses.items()}, "orders": values, "sites": sites_found, "ignored_sites": ignored,
             "no_touch_after_publish": {k: (None if v is None else (not v)) for k, v in touch.items()},
             "classes": {c: {"fields": d["fields"], "methods": {m: {"nodes": len(x["nodes"]), "public": x["public"],
                                                                   "pre": x["pre"], "post": x["post"],
@@ -815,7 +1072,7 @@ def generate(repo, out_path, json_path=None):
     return info
 
 
-def emit_coq(values, touch, classes, complete, problems):
+def emit_coq(values, touch, classes, complete, problems, oclasses=None):
     L = []
     L.append("(* GENERATED by tools/extract_sync.py from the working tree of $COCLS_REPO on every check run — do not edit, not committed. *)")
     L.append("From Coq Require Import List String Bool.")
@@ -839,33 +1096,39 @@ def emit_coq(values, touch, classes, complete, problems):
         L.append("Definition no_touch_after_publish_%s : bool := %s." % (nm, "true" if t is False else "false"))
     L.append("")
     # skeletons
-    cls_defs = []
-    for cls, d in classes.items():
-        fields = d["fields"]
-        fid = {f: i for i, f in enumerate(fields)}
-        mnames = sorted(d["methods"])
-        mid = {m: i for i, m in enumerate(mnames)}
-        ms = []
-        for m in mnames:
-            x = d["methods"][m]
-            nodes = []
-            for (ev, succs) in x["nodes"]:
-                if ev[0] in ("Rd", "Wr"): e = "%s %d" % (ev[0], fid[ev[1]])
-                elif ev[0] == "Call":
-                    tgt = d["methods"].get(ev[1])
-                    trivial = tgt is None or all(nd[0][0] in ("Skip", "End") for nd in tgt["nodes"])
-                    e = "Skip" if trivial else "Call %d" % mid[ev[1]]
-                else: e = "Drop" if ev[0] == "Release" else ev[0]
-                nodes.append("(%s, [%s])" % (e, "; ".join(str(s) for s in succs)))
-            ann = "[%s]" % "; ".join(x["annot"])
-            ms.append("    {| m_name := \"%s\"; m_public := %s; m_pre := %s; m_post := %s;\n       m_nodes := [%s];\n       m_annot := %s |}"
-                      % (m, "true" if x["public"] else "false", "true" if x["pre"] else "false",
-                         "true" if x["post"] else "false", ";\n                   ".join(nodes), ann))
-        ident = "sk_" + coq_ident(cls)
-        L.append("(* class %s: mutex %s; fields %s *)" % (cls, d["mutex"], ", ".join("%d=%s" % (i, f) for f, i in fid.items())))
-        L.append("Definition %s : LocksetDefs.class_sk := {| c_name := \"%s\"; c_methods := [\n%s ] |}." % (ident, cls, ";\n".join(ms)))
-        L.append("")
-        cls_defs.append(ident)
+    def emit_classes(classes, prefix):
+        cls_defs = []
+        for cls, d in classes.items():
+            fields = d["fields"]
+            fid = {f: i for i, f in enumerate(fields)}
+            mnames = sorted(d["methods"])
+            mid = {m: i for i, m in enumerate(mnames)}
+            ms = []
+            for m in mnames:
+                x = d["methods"][m]
+                nodes = []
+                for (ev, succs) in x["nodes"]:
+                    if ev[0] in ("Rd", "Wr"): e = "%s %d" % (ev[0], fid[ev[1]])
+                    elif ev[0] == "Call":
+                        tgt = d["methods"].get(ev[1])
+                        trivial = tgt is None or all(nd[0][0] in ("Skip", "End") for nd in tgt["nodes"])
+                        e = "Skip" if trivial else "Call %d" % mid[ev[1]]
+                    else: e = "Drop" if ev[0] == "Release" else ev[0]
+                    nodes.append("(%s, [%s])" % (e, "; ".join(str(s) for s in succs)))
+                ann = "[%s]" % "; ".join(x["annot"])
+                ms.append("    {| m_name := \"%s\"; m_public := %s; m_pre := %s; m_post := %s;\n       m_nodes := [%s];\n       m_annot := %s |}"
+                          % (m, "true" if x["public"] else "false", "true" if x["pre"] else "false",
+                             "true" if x["post"] else "false", ";\n                   ".join(nodes), ann))
+            ident = prefix + coq_ident(cls)
+            L.append("(* class %s: %s; fields %s *)" % (cls, d["mutex"], ", ".join("%d=%s" % (i, f) for f, i in fid.items())))
+            L.append("Definition %s : LocksetDefs.class_sk := {| c_name := \"%s\"; c_methods := [\n%s ] |}." % (ident, cls, ";\n".join(ms)))
+            L.append("")
+            cls_defs.append(ident)
+        return cls_defs
+    cls_defs = emit_classes(classes, "sk_")
+    own_defs = emit_classes(oclasses or {}, "own_")
+    L.append("(* owner discipline of the lock-free classes: Held = owner context of the release/acquire protocol *)")
+    L.append("Definition owner_skeletons : list LocksetDefs.class_sk := [%s]." % "; ".join(own_defs))
     L.append("Definition skeletons : list LocksetDefs.class_sk := [%s]." % "; ".join(cls_defs))
     return "\n".join(L) + "\n"
 
@@ -884,6 +1147,10 @@ def main():
         print("PROBLEM:", p)
     for p in info["guard_problems"]:
         print("UNGUARDED:", p)
+    for p in info["owner_problems"]:
+        print("NOT-OWNER:", p)
+    for p in info["debug_build_only"]:
+        print("DEBUG-BUILD-ONLY (advisory):", p)
     sys.exit(0 if info["complete"] else 3)
 
 
